@@ -335,6 +335,8 @@ func extractFacts(args []string) {
 		o.def("goSites_"+strings.ReplaceAll(strings.TrimPrefix(pkg, "lib/"), "/", "_"), "Nat", strconv.Itoa(goStmts))
 	}
 
+	extractFactsC14(o, *repo)
+
 	var b strings.Builder
 	b.WriteString("/- GENERATED by `harness extract` from the Go sources of /repo on every run of bin/check. Do not edit. -/\n")
 	b.WriteString("namespace Knut.Generated\n\n")
